@@ -1,3 +1,4 @@
 #!/bin/sh
 # usage: tools/mk.sh [targets...]   (build Coq targets; default all)
+for g in /verif/tools/gen_*.py; do PYTHONPATH=/repo PYTHONHASHSEED=0 PYTHONWARNINGS=ignore /venv/bin/python $g >/dev/null || exit 2; done
 cd /verif/coq && coq_makefile -f _CoqProject -o Makefile $(find theories -name '*.v' | sort) >/dev/null && timeout 1500 make -f Makefile -j16 "$@" 2>&1 | grep -v '^COQC\|^COQDEP\|^make' | head -60
